@@ -127,13 +127,14 @@ type Sim struct {
 	KnownF5          bool
 	// Template mode ("one victim, one wildcard"): a Byzantine dealer mistreats exactly one honest victim's share, every other
 	// fault point is honest except the one whose running number equals Wildcard, where the fault kind is drawn freely.
-	Template   bool
-	Victim     int
-	Wildcard   int
-	faultPoint int
-	Excluded   map[string]int
-	started    bool
-	startBuf   []*delivery
+	Template    bool
+	Victim      int
+	Wildcard    int
+	faultPoint  int
+	heldVectors []*delivery
+	Excluded    map[string]int
+	started     bool
+	startBuf    []*delivery
 }
 
 func (s *Sim) tracef(format string, a ...any) {
@@ -419,6 +420,10 @@ func (s *Sim) End() {
 func (s *Sim) Run() {
 	s.Start()
 	s.inject()
+	for _, d := range s.heldVectors { // vectors their dealers broadcast after their other first-round messages
+		s.enqueue(d, 0)
+	}
+	s.heldVectors = nil
 	s.DeliverAll()
 	if s.Proto != FeldmanVSS {
 		s.Timeout()
@@ -613,7 +618,7 @@ func (s *Sim) byzantine(d *delivery) {
 
 func (s *Sim) vectorFault(d *delivery, di *DealerInfo) {
 	g := s.G
-	kind := s.faultDraw("vectorFault", 13)
+	kind := s.faultDraw("vectorFault", 14)
 	out := append([]byte{}, d.data...)
 	name := ""
 	delay := 0
@@ -667,6 +672,12 @@ func (s *Sim) vectorFault(d *delivery, di *DealerInfo) {
 	case 11:
 		name = "alt"
 		out = append([]byte{TagVector}, di.AltVector...)
+	case 14:
+		// the dealer broadcasts other messages first (its unsolicited answers, complaints) and the vector last in the round
+		di.VectorFault = ""
+		s.class("vector:afterOtherBroadcasts")
+		s.heldVectors = append(s.heldVectors, &delivery{from: d.from, to: -1, broadcast: true, data: out})
+		return
 	case 12:
 		name = "duplicated"
 		s.enqueue(&delivery{from: d.from, to: -1, broadcast: true, data: append([]byte{}, d.data...)}, 0)
